@@ -223,10 +223,27 @@ def _history_case(ctx, case):
     srv = stand_in()
     ctx.ev()
     init = case['initial']
-    tok = A.AuthenticationToken(
+    # The agent named in the authenticate payload is the token's AGENT_NAME /
+    # AGENT_VERSION (class constants read through the instance: "Minecraft",
+    # 1 unless a subclass or an instance says otherwise, e.g. the "Scrolls"
+    # agent of the same service).  Which form a case uses follows from its
+    # content, so replay files need no extra member.
+    akind = (len(case['ops']) + sum(1 for x in init if x)) % 4
+    token_class, agent = A.AuthenticationToken, {'name': 'Minecraft',
+                                                 'version': 1}
+    if akind == 1:
+        class ScrollsToken(A.AuthenticationToken):
+            AGENT_NAME = 'Scrolls'
+        token_class, agent = ScrollsToken, {'name': 'Scrolls', 'version': 1}
+        ctx.label('agent_overridden_in_subclass')
+    tok = token_class(
         username='user0' if init[0] else None,
         access_token='acc0' if init[1] else None,
         client_token='cli0' if init[2] else None)
+    if akind == 2:
+        tok.AGENT_VERSION = 2
+        agent = {'name': 'Minecraft', 'version': 2}
+        ctx.label('agent_overridden_on_instance')
     # a second, untouched token object alive next to the one under test:
     # tokens are independent objects, so nothing done to one may show in the
     # other, and a token constructed with defaults holds nothing
@@ -323,7 +340,7 @@ def _history_case(ctx, case):
             ctx.fail('history', 'Y2-endpoint', sub, (r['path'], r['ctype']),
                      (want_path, 'application/json'))
         if name == 'authenticate':
-            want = {'agent': {'name': 'Minecraft', 'version': 1},
+            want = {'agent': dict(agent),
                     'username': op[1], 'password': op[2]}
             ok = isinstance(payload, dict)
             if ok and not op[3]:
